@@ -563,6 +563,15 @@ func (c *IPAMController) onBlockUpdated(kvp model.KVPair) {
 	if b.Affinity != nil {
 		if after, ok := strings.CutPrefix(*b.Affinity, "host:"); ok {
 			n = after
+			if old, ok := c.nodesByBlock[blockCIDR]; ok && old != n {
+				// The block is now affine to a different node than the version we last saw
+				// (e.g. released and re-claimed between two updates). Drop it from the previous
+				// owner, otherwise that node's block count stays inflated forever.
+				delete(c.blocksByNode[old], blockCIDR)
+				if len(c.blocksByNode[old]) == 0 {
+					delete(c.blocksByNode, old)
+				}
+			}
 			c.nodesByBlock[blockCIDR] = n
 			if _, ok := c.blocksByNode[n]; !ok {
 				c.blocksByNode[n] = map[string]bool{}
